@@ -573,7 +573,16 @@ class Shared:
         objs = ' '.join(['kmod.o', 'drive.o'] + [f'cand_{i}.o' for i in good])
         self._sh(f'gfortran {self.fl} -o prog.x main.f90 {objs} 2> lerr')
         if not ex('prog.x'):
-            raise harness.GeneratorBug('shared executable does not link:\n' + self._r('lerr')[-1500:])
+            # a candidate may reference a procedure that no longer exists: link the original alone and leave every
+            # candidate to the stand-alone re-check
+            lerr = self._r('lerr')
+            self._w('main.f90', main_program([]))
+            self._sh(f'gfortran {self.fl} -o prog.x main.f90 kmod.o drive.o 2> lerr')
+            if not ex('prog.x'):
+                raise harness.GeneratorBug('original program does not link:\n' + self._r('lerr')[-1500:])
+            for i in good:
+                out[i] = Res('link', 1, '', lerr)
+            return self._run_all([], out)
         return self._run_all(good, out)
 
     def _run_all(self, good, out):
@@ -834,7 +843,12 @@ def check_program(seedspec, ctx):
 
 
 def run_shard(ctx):
-    ctx.given(GI.specs(), check_program, ctx.scale(48, 1600), shrink=False)
+    from hypothesis import strategies as st
+    from ..core import derive_seed
+    # Hypothesis' first example is always the simplest one (the integer 0): the drawn integer is mixed with the shard's
+    # seed, otherwise every shard of every run would spend its first program on the same spec
+    specs = st.integers(0, (1 << 48) - 1).map(lambda x: GI.program_spec(derive_seed(ctx.seed, 'program', x) % (1 << 48)))
+    ctx.given(specs, check_program, ctx.scale(48, 1600), shrink=False)
 
 
 # ---- replay ------------------------------------------------------------------------------------------------------
